@@ -3,7 +3,7 @@
    booster::aio::event_loop_impl at lock granularity: [run_labels ls st0] is the state after ANY interleaving
    [ls] of critical sections executed by any number of threads (labels are total: a label that is not enabled,
    or that re-uses a handler id, is a no-op), so a statement quantified over [ls] holds for every schedule. *)
-From CppcmsV Require Import Base.Tac C17.Defs C17.Proofs C17.Proofs2 C17.Proofs3 C17.Proofs4 C17.Proofs5 C17.Proofs6 C17.Proofs7 C17.Solo C17.Pool2 C17.CancelIo C17.CompDefs C17.Comp C17.Fair C17.Fair2 C17.Fair3 C17.PoolFair.
+From CppcmsV Require Import Base.Tac C17.Defs C17.Proofs C17.Proofs2 C17.Proofs3 C17.Proofs4 C17.Proofs5 C17.Proofs6 C17.Proofs7 C17.Solo C17.Pool2 C17.CancelIo C17.CompDefs C17.Comp C17.Fair C17.Fair2 C17.Fair3 C17.PoolFair C17.ReactorDefs C17.Reactor C17.TimerObjDefs C17.TimerObj.
 Local Open Scope N_scope.
 
 (* 1. conservation: every handler id ever accepted by post / set_io_event / set_timer_event occurs exactly once in
@@ -486,3 +486,87 @@ Example composite_nonvacuous :
   (ulog c = [(1,0);(2,1);(3,5)] /\ ustarted c = [3;2;1] /\ pending_toks (base c) = [] /\ dropped (base c) = [] /\
    log_toks (log (base c)) = [10;11;12;13])%type.
 Proof. vm_compute. repeat split. Qed.
+
+(* 8. the reactor layer (reactor.cpp: epoll / poll / select back-ends; ReactorDefs.v) over an OS model in which descriptor NUMBERS are
+      reused lowest-free-first and close() silently drops the epoll registration.  [rrun false ls (rst0 b)] = any sequence of
+      select(fd,flags<>0) on open descriptors whose queued remove (if any) has run, remove(fd), close(fd) by anybody, open().
+      The reactor table always equals the kernel-side interest for every open descriptor and holds nothing for closed numbers (after
+      their remove), the kernel holds no registration for a closed number; hence arming a descriptor - in particular a REUSED number -
+      always produces the requested kernel-side interest, without error, even when the remove of the old descriptor failed with EBADF
+      because the descriptor had been closed first.  The variant that returns before updating the table when epoll_ctl failed is refuted. *)
+Theorem reactor_table_is_coherent : forall b ls, Coh (rrun false ls (rst0 b)).
+Proof. exact coh_invariant. Qed.
+Print Assumptions reactor_table_is_coherent.
+Theorem arming_an_open_descriptor_registers_it : forall b ls fd m,
+  let s := rrun false ls (rst0 b) in
+  (m <> 0)%Z -> zmem (opened s) fd = true -> zmem (pend s) fd = false ->
+  let s2 := rstep false (RArm fd m) s in (interest s2 fd = m /\ lasterr s2 = 0%Z)%type.
+Proof. exact arming_registers. Qed.
+Print Assumptions arming_an_open_descriptor_registers_it.
+Theorem closed_then_reused_number_is_registered : forall b ls fd m m2,
+  let s := rrun false ls (rst0 b) in
+  (m <> 0)%Z -> (m2 <> 0)%Z -> zmem (opened s) fd = true -> zmem (pend s) fd = false ->
+  let s1 := rstep false (RArm fd m) s in
+  let s2 := rstep false (OClose fd) s1 in
+  let s3 := rstep false (RRemove fd) s2 in
+  let s4 := rstep false OOpen s3 in
+  zmem (opened s4) fd = true ->
+  let s5 := rstep false (RArm fd m2) s4 in
+  ((b = BEpoll -> lasterr s3 = 9%Z) /\ interest s5 fd = m2 /\ lasterr s5 = 0%Z)%type.
+Proof. exact reuse_scenario. Qed.
+Print Assumptions closed_then_reused_number_is_registered.
+Theorem no_kernel_registration_for_a_closed_number : forall b ls fd,
+  let s := rrun false ls (rst0 b) in zmem (opened s) fd = false -> zget (kreg s) fd = 0%Z.
+Proof. exact no_registration_for_closed. Qed.
+Print Assumptions no_kernel_registration_for_a_closed_number.
+Theorem stale_table_variant_refuted : exists ls fd m,
+  let s := rrun true ls (rst0 BEpoll) in
+  (zmem (opened s) fd = true /\ zmem (pend s) fd = false /\ interest (rstep true (RArm fd m) s) fd = 0%Z /\ (m <> 0)%Z /\
+   lasterr (rstep true (RArm fd m) s) = 0%Z)%type.
+Proof. exact stale_variant_refuted. Qed.
+Print Assumptions stale_table_variant_refuted.
+Example reactor_nonvacuous :
+  let s := rrun false [OOpen; OOpen; RArm 1 1; OClose 1; RRemove 1; OOpen] (rst0 BEpoll) in
+  (zmem (opened s) 1 = true /\ zmem (pend s) 1 = false /\ lasterr s = 9 /\ interest (rstep false (RArm 1 1) s) 1 = 1 /\
+   interest (rstep true (RArm 1 1) (rrun true [OOpen; OOpen; RArm 1 1; OClose 1; RRemove 1; OOpen] (rst0 BEpoll))) 1 = 0)%Z.
+Proof. vm_compute. repeat split. Qed.
+
+(* 9. the deadline_timer OBJECT (deadline_timer.cpp; TimerObjDefs.v): event_id_ as the token of the wait it refers to, over the loop
+      model.  The waiter wipes the id BEFORE it calls the user handler, so a handler that re-arms its own timer object (periodic /
+      watchdog pattern) leaves the object with the id of the NEW wait, and a later cancel() - after any steps of other threads that do
+      not cancel by id, while the loop thread has not reached the timers stage - queues the new handler with canceled.  The variant
+      that wipes the id after the handler is refuted; so is (in the REAL code: finding 3) the restart cancel(); async_wait() issued
+      before the cancelled handler of the previous wait has run. *)
+Theorem rearm_from_own_handler_keeps_the_new_id : forall se c t cd k dl,
+  lpc (tbase c) = Popped -> running (tbase c) = Some (Run t cd) -> t_owned c t = true ->
+  fresh k (step (LExec se) (tbase c)) = true ->
+  let c2 := tstep false (TExec se (Some (k,dl))) c in
+  (eid c2 = Some k /\ t_mem (timers (tbase c2)) k = true /\ t_owned c2 k = true)%type.
+Proof. exact rearm_from_handler_keeps_the_new_id. Qed.
+Print Assumptions rearm_from_own_handler_keeps_the_new_id.
+Theorem timer_cancel_cancels_the_current_wait : forall sw c k, eid c = Some k -> t_mem (timers (tbase c)) k = true ->
+  let c2 := tstep sw TCancel c in (eid c2 = None /\ In (Run k Canceled) (queue (tbase c2)))%type.
+Proof. exact cancel_cancels_the_current_wait. Qed.
+Print Assumptions timer_cancel_cancels_the_current_wait.
+Theorem cancel_after_rearm_from_own_handler_cancels_the_new_wait : forall se c t cd k dl,
+  lpc (tbase c) = Popped -> running (tbase c) = Some (Run t cd) -> t_owned c t = true ->
+  fresh k (step (LExec se) (tbase c)) = true ->
+  forall ls, (forall l, In l ls -> match l with LCancelTimer _ | LReset | LBegin | LDone | LExec _ | LThrow | LPollEnd _ _ | LPollThrow => False | _ => True end) ->
+  let c2 := tstep false (TExec se (Some (k,dl))) c in
+  let c3 := trun false (map TL ls) c2 in
+  let c4 := tstep false TCancel c3 in
+  (eid c4 = None /\ In (Run k Canceled) (queue (tbase c4)))%type.
+Proof. exact cancel_after_rearm_from_handler_cancels_the_new_wait. Qed.
+Print Assumptions cancel_after_rearm_from_own_handler_cancels_the_new_wait.
+Theorem wipe_after_handler_variant_refuted : exists ls, let c := trun true ls tst0 in
+  (eid c = None /\ timers (tbase c) <> [] /\ queue (tbase (tstep true TCancel c)) = queue (tbase c))%type.
+Proof. exact swapped_variant_refuted. Qed.
+Print Assumptions wipe_after_handler_variant_refuted.
+Theorem restart_before_cancelled_handler_ran_loses_the_id_refuted : exists ls, let c := trun false ls tst0 in
+  (eid c = None /\ t_mem (timers (tbase c)) 2 = true /\ queue (tbase (tstep false TCancel c)) = queue (tbase c))%type.
+Proof. exact restart_before_cancelled_handler_ran_refuted. Qed.
+Print Assumptions restart_before_cancelled_handler_ran_loses_the_id_refuted.
+Example timer_object_nonvacuous : let c := trun false sched5 tst0 in
+  (eid c = Some 2 /\ t_mem (timers (tbase c)) 2 = true /\ eid (tstep false TCancel c) = None /\
+   In (Run 2 Canceled) (queue (tbase (tstep false TCancel c))) /\ t_mem (timers (tbase (tstep false TCancel c))) 2 = false)%type.
+Proof. exact real_code_same_schedule. Qed.
